@@ -77,3 +77,24 @@ Example source_utf16Length_nonvacuous :
   io_utf16Length [Byte.xf0; Byte.x9f; Byte.x98; Byte.x80] = GRet 2%Z /\
   io_utf16Length [Byte.xc0; Byte.x80] = GRet (-1)%Z /\ io_utf16Length [Byte.xe2; Byte.x82] = GRet (-1)%Z.
 Proof. vm_compute. repeat split. Qed.
+
+(* The Write entry point (Encoder.Write: the top-level value is written out, never replaced by a
+   back-reference, but registered like any other; model Enc.enc_write): its output is token-legal and
+   is exactly one value for the independent reader, like Encode's.  That the written value DENOTES v
+   and that later back-references resolve to it is not proved for this entry point; it is checked on
+   every run by the proved reader on the real Encoder's output for sequences that mix Write and Encode
+   (lib/iosuite.py sequences_family). *)
+Theorem C03_write_entry_output_is_one_value : forall simple hp fuel st v st' w,
+  gval_ok v = true -> heap_ok hp = true ->
+  enc_write simple hp fuel st v = EOk st' w -> tok_ok w = true /\ parse_all (emit w) = Some w.
+Proof.
+  intros simple hp fuel st v st' w Hv Hh H. split.
+  - exact (enc_write_tok_ok simple hp fuel st v st' w Hv Hh H).
+  - exact (enc_write_parse_all simple hp fuel st v st' w Hv Hh H).
+Qed.
+Print Assumptions C03_write_entry_output_is_one_value.
+
+Example write_entry_nonvacuous :
+  (match enc_write false [] 3 einit (GString [Byte.x78]) with EOk _ (WStr [Byte.x78]) => true | _ => false end) = true /\
+  enc false [] 3 einit (GString [Byte.x78]) = EOk einit (WChar [Byte.x78]).
+Proof. vm_compute. split; reflexivity. Qed.
